@@ -23,21 +23,22 @@ _P = "Cstl.Hash."
 THEOREMS = {
     "C03": [_P + n for n in (
         "inv_init", "insert_exact", "find_exact", "find_answers", "erase_exact", "size_exact",
-        "resize_exact", "rehash_exact", "shrink_exact", "step_inv", "run_exact", "run_inv")],
+        "resize_exact", "rehash_exact", "shrink_exact", "step_inv", "run_exact", "run_inv",
+        "run_total_in_range")],
     "C04": [_P + n for n in (
         "visited_exactly_once", "visited_results", "foreach_once", "foreachConst_once", "foreachConst_all",
         "clear_once", "clear_reusable", "step_inv", "run_inv")],
     "C19": [_P + n for n in (
         "load_spec", "resize_lands", "heading_kept_keyed", "heading_kept_rehash", "heading_kept_shrink",
-        "settled_single_call", "keyed_cost_and_progress", "rehash_finishes", "rehash_finishes_sharp")],
+        "settled_single_call", "keyed_cost_and_progress", "rehash_finishes", "rehash_finishes_sharp",
+        "keyed_touches_three")],
     # part b of C17 (part a: area hashfn)
     "C17": [_P + n for n in (
         "getBucket_failstop", "insert_failstop", "find_failstop", "erase_failstop", "resize_failstop",
         "rehash_failstop", "shrink_failstop", "foreach_failstop", "foreachConst_failstop", "clear_failstop",
-        "run_failstop")],
+        "run_failstop", "returns_of_in_range", "run_total_in_range")],
 }
-# statements kept in the Lean files as `def ..._statement : Prop` (not proved, not listed above):
-#   Cstl.Hash.keyed_untouched_buckets_statement (C19), Cstl.Hash.run_no_abort_in_range_statement (C17/C03)
+# no statement of this area is left unproved (`def ..._statement : Prop`): none
 
 NE = 256
 GOOD_FNS = (0, 1, 2, 3)
